@@ -103,7 +103,7 @@ def _check_one(x, y, unit=1.0):
         ref = PchipInterpolator(x, y, extrapolate=True)(q)
     amp = np.maximum(1.0, np.maximum(x[0] - q, q - x[-1]) / hmin + 1.0) ** 3
     err = np.abs(got - ref) / (amp * scale)
-    if err.max() > 1e-10:
+    if not err.max() <= 1e-10:  # NaN fails
         k = int(err.argmax())
         return f"differs from standard PCHIP at x={q[k]}: got {got[k]!r} ref {ref[k]!r}"
     # 3. C1 at interior knots
@@ -116,7 +116,7 @@ def _check_one(x, y, unit=1.0):
         if np.abs(vl - y[1:-1]).max() > 1e-12 * scale / min(1.0, hmin / unit):
             return f"discontinuous at an interior knot: left limit {vl.tolist()} vs {list(y[1:-1])}"
         dd = np.abs(gr.numpy() - gl.numpy()).max()
-        if dd > 1e-9 * scale / hmin:
+        if not dd <= 1e-9 * scale / hmin:  # NaN fails
             return f"derivative jumps at an interior knot: right {gr.tolist()} left {gl.tolist()}"
     # 4. monotone and bounded on every interval
     sub = np.linspace(0.0, 1.0, 17)
